@@ -34,6 +34,8 @@ type Cfg struct {
 	Table  []rs.RS `json:"rule_table"`
 	File   bool    `json:"file_source"`
 	FileM  int     `json:"file_module"`
+	// Preload: the application loaded rules through the modules' API before any datasource delivered anything
+	Preload bool `json:"preloaded_by_api,omitempty"`
 }
 
 const nRes = 3
@@ -52,7 +54,7 @@ func (P) Engine() string { return "E3" }
 
 func (P) Describe() harness.Description {
 	return harness.Description{
-		MustHit: []string{"undecodable_payload", "payload_with_null_element", "empty_payload", "identical_redelivery", "redelivery_keeps_controller_state", "file_event_delivered", "file_event_duplicated", "file_removed", "file_renamed", "file_moved_away_and_back", "file_converged"},
+		MustHit: []string{"rules_preloaded_by_api", "undecodable_payload", "payload_with_null_element", "empty_payload", "identical_redelivery", "redelivery_keeps_controller_state", "file_event_delivered", "file_event_duplicated", "file_removed", "file_renamed", "file_moved_away_and_back", "file_converged"},
 		Level:   "exploration",
 		Rule: "case = (table of rule specifications for the five parsers: valid, field-wise invalid, never-blocking / always-blocking; 5-30 deliveries to property handlers wired to the REAL rule managers: the wire-format JSON of a rule list, the same with a null element, a wrongly typed element, truncated at a drawn byte, followed by trailing bytes (a second document, a stray bracket, the tail of an older file), empty, 'null', an object instead of an array; immediate identical redelivery; probes). " +
 			"Oracle: Handle never panics out; undecodable => error returned and the previous rules stay in force; decodable => exactly its valid rules are reported, field for field (wire round trip), and govern probe traffic; empty => cleared; identical redelivery => nothing changes, including controller state (a private-window flow rule keeps its count). " +
@@ -97,6 +99,7 @@ func (P) Gen(rng *sim.Rng, tier string) *harness.Case {
 		}
 		return l
 	}
+	cfg.Preload = rng.Chance(0.25)
 	var ops []harness.Op
 	for k := rng.Range(5, 30); len(ops) < k; {
 		m := rng.Intn(5)
@@ -287,6 +290,13 @@ func (w *world) apply(m int, list []rs.RS, described []interface{}) {
 			w.block[m][key] = true
 		}
 	}
+}
+
+func fsrcModule(cfg *Cfg) int {
+	if cfg.File {
+		return cfg.FileM
+	}
+	return -1
 }
 
 func decodeList(cfg *Cfg, a []string, m int) []rs.RS {
@@ -639,6 +649,65 @@ func (P) Exec(c *harness.Case) *harness.Outcome {
 			}
 		}
 		return true
+	}
+	if cfg.Preload {
+		// rules are already in force when the datasources deliver their first payload (which may well be an empty one)
+		for m := 0; m < 5; m++ {
+			if fsrcModule(&cfg) == m {
+				continue
+			}
+			var list []rs.RS
+			for _, r := range cfg.Table {
+				if r.M == m && !r.Nil {
+					list = append(list, r)
+				}
+			}
+			_, described := encode(m, list)
+			harness.Call(o, "C18.panic", 0, func() {
+				switch m {
+				case rs.Flow:
+					var l []*flow.Rule
+					for _, r := range list {
+						l = append(l, rs.BuildFlow(r))
+					}
+					_, _ = flow.LoadRules(l)
+				case rs.Isolation:
+					var l []*isolation.Rule
+					for _, r := range list {
+						l = append(l, rs.BuildIsolation(r))
+					}
+					_, _ = isolation.LoadRules(l)
+				case rs.Hotspot:
+					var l []*hotspot.Rule
+					for _, r := range list {
+						x := rs.BuildHotspot(r)
+						x.SpecificItems = expectSpecific(r)
+						l = append(l, x)
+					}
+					_, _ = hotspot.LoadRules(l)
+				case rs.Breaker:
+					var l []*cb.Rule
+					for _, r := range list {
+						l = append(l, rs.BuildBreaker(r))
+					}
+					_, _ = cb.LoadRules(l)
+				case rs.System:
+					var l []*system.Rule
+					for _, r := range list {
+						l = append(l, rs.BuildSystem(r))
+					}
+					_, _ = system.LoadRules(l)
+				}
+			})
+			if o.Failed() {
+				return o
+			}
+			w.apply(m, list, described)
+			o.Probe("rules_preloaded_by_api")
+		}
+		if !w.checkState(0) {
+			return o
+		}
 	}
 	for step, op := range c.Callers[0] {
 		switch op.K {
